@@ -41,6 +41,9 @@ def fn_spans(text: str):
         body_open = None
         while i < len(text):
             c = text[i]
+            if c == "/" and text.startswith("//", i):
+                i = text.index("\n", i)
+                continue
             if c in "([":
                 depth += 1
             elif c in ")]":
@@ -96,11 +99,58 @@ def fn_spans(text: str):
     return out
 
 
+EMIT_CONTRACT = """    requires old(context).mapper.v_next() < usize::MAX,
+    ensures
+        // exactly one instruction is appended, after everything emitted before
+        final(out).code@.len() == old(out).code@.len() + 1,
+        final(out).code@.subrange(0, old(out).code@.len() as int) == old(out).code@,
+        final(out).data@ == old(out).data@,
+        // and it is associated with the position of the production (or of the outermost macro use while locked)
+        final(context).mapper.v_map() == old(context).mapper.v_map().insert(old(context).mapper.v_next(),
+            if old(context).mapper.v_lock() != 0 { old(context).mapper.v_last() } else { %s }),
+        final(context).mapper.v_next() == old(context).mapper.v_next() + 1,
+        final(context).mapper.v_lock() == old(context).mapper.v_lock(),
+        // the symbol tables are untouched, so a label defined next denotes the following instruction
+        final(context).label_map@ == old(context).label_map@, final(context).fn_map@ == old(context).fn_map@,
+        final(context).data_counter == old(context).data_counter,
+"""
+
+
+def assembler_emitters(ex) -> str:
+    """one //@action per assembler production whose block is `out.code.push(..); context.mapper.add_entry(start|end);`
+    (found by shape in the production table of THIS run), all under the same emission contract"""
+    rel = "src/lib/preprocessor/preprocessor.rs"
+    t, acts, prods = ex.table(rel)
+    out = []
+    seen = set()
+    k = 0
+    for p in prods:
+        a = acts.get(p.user_action)
+        if a is None or p.user_action in seen:
+            continue
+        body = a.body
+        if a.ret != "()" or body.count("out.code.push(") != 1 or "context.mapper.add_entry(" not in body:
+            continue
+        if re.search(r"\b(if|match|for|while|return)\b", body):
+            continue
+        m = re.search(r"context\.mapper\.add_entry\((\w+)\)", body)
+        seen.add(p.user_action)
+        k += 1
+        out.append(f"//@action {rel} {p.sig} as em_{k}\n//@contract\n" + (EMIT_CONTRACT % m.group(1)) + "//@end\n")
+    return "\n".join(out), k
+
+
 def run_unit(unit: str, dst: str, root: str):
     """expand + verify one unit; returns dict with per-function results"""
     ex = verus_extract.Extractor(dst)
     pre = verus_extract.expand(open(os.path.join(CDIR, "prelude.rs")).read(), ex)
-    body = verus_extract.expand(open(os.path.join(CDIR, UNITS[unit]["tpl"])).read(), ex)
+    tpl = open(os.path.join(CDIR, UNITS[unit]["tpl"])).read()
+    if "//@emitters" in tpl:
+        em, n = assembler_emitters(ex)
+        if n < 20:
+            raise Undecided(f"assembler emission productions: only {n} found by shape (lost anchor)")
+        tpl = tpl.replace("//@emitters", em)
+    body = verus_extract.expand(tpl, ex)
     text = pre + "\n" + body
     # literal table for the ghost output log (R2)
     if ex.literals:
